@@ -14,6 +14,7 @@ def snapshot(v, memo=None):
             return memo[v.oid]
         n = Obj(v.cls, {}, v.name)
         n.oid = v.oid
+        n.methods = v.methods
         memo[v.oid] = n
         for k, x in v.fields.items():
             n.fields[k] = snapshot(x, memo)
